@@ -60,6 +60,7 @@ fn c07_one(ctx: &Ctx, c: &C07Case, shared: &Mutex<(SearchContext, MoveGenerator)
     match c.history_state {
         1 => { b.push_halfmove_clock((100 + c.depth as u16 * 7) as _); ctx.count("roots_with_half_move_clock_at_or_beyond_100", 1); }
         2 => { for _ in 0..3 { b.count_current_position(); } ctx.count("roots_registered_three_times", 1); }
+        3 => { b.count_current_position(); ctx.count("terminal_roots_registered_once", 1); }
         _ => {}
     }
     let (res, visited, changed): (Result<ChessMove, String>, Option<usize>, Option<String>);
@@ -83,6 +84,26 @@ fn c07_one(ctx: &Ctx, c: &C07Case, shared: &Mutex<(SearchContext, MoveGenerator)
         match out {
             Err(msg) => { ctx.violation(&format!("c07:panic:{}", par::last_panic_location()), &format!("alpha_beta_search panicked on {} (depth {}, {} legal moves): {}", p.to_fen(), c.depth, legal.len(), msg), replay); return; }
             Ok(o) => { res = o.result; visited = Some(o.visited); changed = o.changed; }
+        }
+    }
+    // the same context (and generator) asked about the same placement with the other side to move
+    if c.reuse && !c.via_game && c.depth >= 1 {
+        let mut t = p.clone(); t.turn = p.turn.opp(); t.ep = None;
+        if t.is_consistent() && !t.legal_moves().is_empty() {
+            let mut tb = to_engine(&t);
+            let mut g = shared.lock().unwrap();
+            let (sc, mg) = &mut *g;
+            if sc.search_depth() == c.depth {
+                if let Ok(o2) = run_search(&mut tb, sc, mg, &pool) {
+                    ctx.count("same_placement_other_side_to_move_with_the_same_context", 1);
+                    let tl: Vec<MoveKey> = t.legal_moves().iter().map(rkey).collect();
+                    match &o2.result {
+                        Ok(m) if tl.contains(&ekey(m)) => {}
+                        Ok(m) => ctx.violation("c07:illegal-move", &format!("after searching {} the same context was asked about the same placement with {:?} to move and answered {} which is not legal there", p.to_fen(), t.turn, key_str(&ekey(m))), json!({"fen": t.to_fen(), "searched_before_with_the_same_context": p.to_fen(), "depth": c.depth, "pool": c.pool})),
+                        Err(e) => ctx.violation("c07:error-with-legal-moves", &format!("{} has legal moves but the search answered Err({}) (context used before on the same placement with the other side to move)", t.to_fen(), e), json!({"fen": t.to_fen(), "searched_before_with_the_same_context": p.to_fen(), "depth": c.depth})),
+                    }
+                }
+            }
         }
     }
     ctx.count("searches", 1);
@@ -127,7 +148,7 @@ pub fn c07(o: &Opts) -> i32 {
         let legal = p.legal_moves().len();
         let special = legal <= 1 || p.in_check(p.turn);
         let maxd: u8 = if p.piece_count() > 16 { if q { 2 } else { 3 } } else if q { 3 } else { 4 };
-        if special { for d in 0..=maxd.min(3) { cases.push(C07Case { p: p.clone(), tag: t.clone(), depth: d, pool: *r.pick(&pools), via_game: d % 2 == 1, reuse: false, history_state: 0 }); } }
+        if special { for d in 0..=maxd.min(3) { cases.push(C07Case { p: p.clone(), tag: t.clone(), depth: d, pool: *r.pick(&pools), via_game: d % 2 == 1, reuse: false, history_state: if legal == 0 && d == 2 { 3 } else { 0 } }); } }
         else {
             let d = 1 + r.below(maxd as usize) as u8;
             cases.push(C07Case { p: p.clone(), tag: t.clone(), depth: d, pool: *r.pick(&pools), via_game: r.chance(0.3), reuse: r.chance(0.3), history_state: 0 });
@@ -309,6 +330,22 @@ pub fn c08(o: &Opts) -> i32 {
             0..=4 => cases.push(C08Case::Fresh { p: p.clone(), depth, pool: *r.pick(&pools) }),
             5..=6 => { let others = (0..3).map(|_| r.pick(&pos).clone()).collect(); cases.push(C08Case::Prewarmed { p: p.clone(), others, depth, pool: *r.pick(&pools) }); }
             _ => cases.push(C08Case::GameReuse { p: p.clone(), depth: depth.min(if q { 2 } else { 3 }).max(2), plies: 8 + r.below(if q { 8 } else { 22 }), pool: *r.pick(&pools) }),
+        }
+    }
+    {
+        let mut mr = Rng::new(o.seed).fork(tag("c08-mates"));
+        let mut added = 0; let mut tries = 0;
+        while added < if q { 8 } else { 60 } && tries < 3000 {
+            tries += 1;
+            let p = gen::random_ending(&mut mr);
+            let n = p.legal_moves().len();
+            if n < 2 || n > 30 || p.piece_count() > 5 { continue; }
+            let mut leaves = 0u64;
+            let v = reference_minimax(&p, 3, &ms, &mut leaves);
+            if v.abs() < 16000 { continue; } // a forced mate within three plies
+            added += 1;
+            cases.insert(0, C08Case::GameReuse { p, depth: 3, plies: 6, pool: *mr.pick(&[1usize, 2, 8]) });
+            ctx.count("game_reuse_cases_with_a_mate_inside_the_horizon", 1);
         }
     }
     // a game from the initial position, as the game loops play it
@@ -536,6 +573,34 @@ pub fn c09(o: &Opts) -> i32 {
             found += 1;
             ctx.count("positions_with_several_equally_quick_mates", 1);
             cases.insert(found.min(cases.len()), C09Case { p, depth, warm: vec![], schedules: if q { 8 } else { 30 }, id: 1000 + found });
+        }
+    }
+    if o.replay.is_none() {
+        let mut tr = Rng::new(o.seed).fork(tag("c09-deep"));
+        let mut added = 0; let mut tries = 0;
+        while added < if q { 30 } else { 120 } && tries < 8000 {
+            tries += 1;
+            let mut p = Pos::empty();
+            let mut free: Vec<u8> = (0..64u8).collect(); tr.shuffle(&mut free);
+            let mut it = free.into_iter();
+            p.sq[it.next().unwrap() as usize] = Some((Col::W, Pc::K));
+            p.sq[it.next().unwrap() as usize] = Some((Col::B, Pc::K));
+            if tries % 2 == 0 {
+                // pawn races: one free pawn each on different files (independent moves transpose: a, x, b = b, x, a)
+                let wf = tr.below(8) as u8; let bf = (wf + 2 + tr.below(4) as u8) % 8;
+                let (ws, bs) = ((1 + tr.below(4) as u8) * 8 + wf, (3 + tr.below(4) as u8) * 8 + bf);
+                if p.sq[ws as usize].is_some() || p.sq[bs as usize].is_some() { continue; }
+                p.sq[ws as usize] = Some((Col::W, Pc::P)); p.sq[bs as usize] = Some((Col::B, Pc::P));
+            } else {
+                for c in [Col::W, Col::B] { for _ in 0..1 + tr.below(2) { let s = it.by_ref().find(|s| (8..56).contains(s)).unwrap(); p.sq[s as usize] = Some((c, Pc::P)); } }
+            }
+            p.turn = *tr.pick(&[Col::W, Col::B]);
+            if !p.is_consistent() { continue; }
+            let n = p.legal_moves().len();
+            if n < 3 || n > 9 { continue; }
+            added += 1;
+            ctx.count("tiny_endings_searched_to_depth_5", 1);
+            cases.insert(added.min(cases.len()), C09Case { p, depth: 5, warm: vec![], schedules: if q { 5 } else { 16 }, id: 2000 + added });
         }
     }
     if let Some(path) = &o.replay {
